@@ -242,7 +242,7 @@ NAMES = ["README.md", "setup.py", "src/pkg/__init__.py", "docs/conf.py", "CHANGE
 
 
 def gen_project(d, vast, state, pep_shaped, max_files=5, max_patterns=4, unicode_text=False, regimes=None, share_lines=True,
-                allow_glob=True, allow_partial=True, once_each=False, cover_config=False, nested=False):
+                allow_glob=True, allow_partial=True, once_each=False, cover_config=False, nested=False, share_patterns=False):
     nfiles = d.int(1, max_files)
     names = d.shuffle(NAMES)[:nfiles]
     patterns, entries, files = [], [], []
@@ -253,6 +253,14 @@ def gen_project(d, vast, state, pep_shaped, max_files=5, max_patterns=4, unicode
         idx = list(range(len(patterns), len(patterns) + n))
         patterns += pats
         entries.append([name, idx])
+    if share_patterns:
+        # the very same search pattern configured for two files (plain entries)
+        for j in range(1, len(entries)):
+            if d.chance(1, 4):
+                donor = entries[d.int(0, j - 1)][1]
+                pi = donor[d.int(0, len(donor) - 1)]
+                if pi not in entries[j][1]:
+                    entries[j][1].insert(d.int(0, len(entries[j][1])), pi)
     file_pat = {name: list(idx) for name, idx in entries}
     if use_glob:
         # two files share a glob entry (its patterns must occur in both); one of them keeps an explicit entry too
